@@ -177,6 +177,10 @@ func (c *Core) dispatching(bp BundleDescriptor) {
 			"routing": c.routing,
 		}).Info("Routing Algorithm has not allowed dispatching of the bundle")
 
+		// Keep the bundle for the next attempt. Without a retention constraint of its own the bundle's
+		// Pending flag in the store would be reset by the next synchronization of a BundleDescriptor, e.g.,
+		// when the same bundle is received again, and the bundle would never be retried.
+		c.bundleContraindicated(bp)
 		return
 	}
 
